@@ -87,6 +87,39 @@ pub fn eval(ctx: &mut Ctx, op: &str, args: &[Sexp]) -> Option<String> {
             }
             Some(ser_answer(ser_all(&DVal::Display(cs))))
         }
+        "rtsp" => {
+            // rtsp <idx> <variant shape> <value>: round trip of an enum with ONE accepted discriminant
+            // anywhere in the u32 range (a hand-written Deserialize impl with sparse / wide discriminants)
+            let idx: u32 = args.first()?.atom()?.parse().ok()?;
+            let t = DTy::EnumAt(idx, Box::new(DTy::from_sexp(args.get(1)?)?));
+            let v = DVal::from_sexp(args.get(2)?)?;
+            if !has_ty(&v, &t) {
+                return Some("bad-op".into());
+            }
+            let r = ser_all(&v);
+            if let Ok(Ok(bytes)) = &r {
+                for rest in [&[][..], &[0xAA, 0x00, 0x80][..]] {
+                    let mut inp = bytes.clone();
+                    inp.extend_from_slice(rest);
+                    match de_all(&t, &inp) {
+                        Ok(Ok((v2, r2))) if v2 == v && r2 == rest => {}
+                        other => ctx.oracle_fail(format!("round-trip (discriminant {}): decode of encode gave {:?}", idx, other.map(|x| x.map(|(v, r)| (v.to_string(), hex(&r)))))),
+                    }
+                }
+            } else {
+                ctx.oracle_fail(format!("round-trip: a well-typed value failed to serialise: {:?}", r));
+            }
+            Some(ser_answer(r))
+        }
+        "desp" => {
+            let idx: u32 = args.first()?.atom()?.parse().ok()?;
+            let t = DTy::EnumAt(idx, Box::new(DTy::from_sexp(args.get(1)?)?));
+            let bytes = unhex(args.get(2)?.atom()?)?;
+            Some(match de_all(&t, &bytes) {
+                Ok(r) => de_answer(&r),
+                Err(d) => format!("FAIL {}", d),
+            })
+        }
         "de" => {
             let t = DTy::from_sexp(args.first()?)?;
             let bytes = unhex(args.get(1)?.atom()?)?;
@@ -207,6 +240,10 @@ pub fn gen_c01(r: &mut Rng, thorough: bool, out: &mut Vec<String>) {
     for (t, v) in scale_cases(r, thorough) {
         emit_rt(out, &t, &v);
     }
+    // enums with one accepted discriminant anywhere in the u32 range (1- to 5-byte index varints)
+    for (i, vt, v) in enum_at_cases(r) {
+        out.push(format!("rtsp {} {} {}", i, vt, v));
+    }
     // exhaustive small domains
     for b in [false, true] {
         emit_rt(out, &DTy::Bool, &DVal::Bool(b));
@@ -302,6 +339,9 @@ pub fn gen_c02(r: &mut Rng, thorough: bool, out: &mut Vec<String>) {
     let mut c01 = Vec::new();
     gen_c01(r, thorough, &mut c01);
     for l in c01 {
+        if !l.starts_with("rt ") {
+            continue;
+        }
         // "rt <ty> <val>" → "spec <val>": drop the type (first s-expression after the op)
         let rest = &l[3..];
         let mut depth = 0i32;
@@ -318,6 +358,9 @@ pub fn gen_c02(r: &mut Rng, thorough: bool, out: &mut Vec<String>) {
             }
         }
         out.push(format!("spec {}", &rest[end + 1..]));
+    }
+    for (_, _, v) in enum_at_cases(r) {
+        out.push(format!("spec {}", v));
     }
     // big variant indices (serializer side only)
     for i in [0u32, 127, 128, 16383, 16384, 2097151, 2097152, u32::MAX - 1, u32::MAX] {
@@ -563,5 +606,25 @@ pub fn gen_c03(r: &mut Rng, thorough: bool, out: &mut Vec<String>) {
                 out.push(format!("de {} {}", t, hex(&c)));
             }
         }
+    }
+    // sparse / wide enum discriminants: valid encodings, every truncation, every byte corrupted, a re-padded
+    // index, and the neighbouring discriminants (which the one-discriminant visitor refuses)
+    for (i, vt, v) in enum_at_cases(r) {
+        let bytes = match postcard::to_allocvec(&v) {
+            Ok(b) => b,
+            Err(_) => continue,
+        };
+        out.push(format!("desp {} {} {}", i, vt, hex(&bytes)));
+        let mut ext = bytes.clone();
+        ext.extend_from_slice(&[0x80, 0x01]);
+        out.push(format!("desp {} {} {}", i, vt, hex(&ext)));
+        for k in 0..bytes.len() {
+            out.push(format!("desp {} {} {}", i, vt, hex(&bytes[..k])));
+            let mut c = ext.clone();
+            c[k] ^= 1 << (k % 8);
+            out.push(format!("desp {} {} {}", i, vt, hex(&c)));
+        }
+        out.push(format!("desp {} {} {}", i.wrapping_add(1), vt, hex(&bytes)));
+        out.push(format!("desp {} {} {}", i.wrapping_sub(1), vt, hex(&bytes)));
     }
 }
